@@ -1,12 +1,358 @@
-import PeliteModel.Lemmas.Resources
+import PeliteModel.Lemmas.ResMisc
 /-!
 C12 — resource tree traversal, lookup and reassembly reflect the stored directory.
-Property theorems only; helper lemmas are in Lemmas/Resources.lean, Lemmas/ResFind.lean, Lemmas/ResGroup.lean.
+
+Property theorems only; helper lemmas are in Lemmas/Res*.lean.  The model is
+Model/{Resources,ResFind,ResGroup}.lean, the specification (abstract tree, layout relation `IsNode`,
+reference writer, documented name matching, `.ico` files) is Spec/Resources.lean.
+
+Throughout, `Aligned r` says that the section starts at a multiple of 4, which is what
+`Pe::resources` establishes (`C12_resources_aligned`).  `Safe o` = the operation neither panics nor
+dereferences outside the section / misaligned nor runs out of fuel; `IsVal o` = it returns a Rust value.
 -/
 namespace Pelite.Resources
+open Pelite
 
-/-- C02/C01 for `fsck`: on arbitrary section bytes at a 4-aligned address the consistency check
-neither panics nor dereferences outside the section / misaligned, and needs no fuel. -/
-theorem C12_fsck_safe (r : Resources) (hb : Aligned r) : Safe (fsck r) := safe_fsck hb
+/-! ## 1. Arbitrary section bytes: no ub, no panic, references in bounds, bounded work -/
+
+/-- `Pe::resources` hands `Resources::new` a section that lies inside the image buffer, starts at a
+4-aligned address, is clamped to the directory `Size`, and carries the directory RVA. -/
+theorem C12_resources_aligned (v : Pe.View) (r : Resources) (secOff : Nat) (h : ofView v = .ok (r, secOff)) :
+    Aligned r ∧ secOff + r.sec.size ≤ v.img.bytes.size ∧ r.base = v.img.base + secOff ∧
+    ∃ va size, v.dataDir 2 = some (va, size) ∧ r.dirVA = va ∧ r.sec.size ≤ size ∧
+      r.sec = v.b.extract secOff (secOff + r.sec.size) :=
+  ofView_ok h
+
+/-- C02 / C03 (termination) for everything in `resources/mod.rs` and `art.rs`, for arbitrary section
+bytes: root, the consistency checks and both `Display` implementations end in a value or an error. -/
+theorem C12_safe_traversal (r : Resources) (hb : Aligned r) :
+    Safe (root r) ∧ Safe (fsck r) ∧ Safe (display r) ∧
+    (∀ off, Safe (dirTryFrom r off) ∧ Safe (dataTryFrom r off)) ∧
+    (∀ d, DirOK r d → Safe (d.entries r) ∧ Safe (d.fsck r) ∧ Safe (d.display r)) ∧
+    (∀ e : DirEntry, Safe (e.getName r) ∧ Safe (e.entry r) ∧ Safe (e.fsck r)) ∧
+    (∀ de : DataEntry, Safe (de.bytes r) ∧ Safe (de.fsck r)) :=
+  ⟨safe_root hb, safe_fsck hb, safe_display hb,
+   fun off => ⟨safe_dirTryFrom hb off, safe_dataTryFrom hb off⟩,
+   fun _ hd => ⟨safe_entries hb hd, safe_dirFsck hb hd, safe_dirDisplay hb hd⟩,
+   fun e => ⟨safe_getName hb e, safe_entry hb e, safe_entryFsck hb e⟩,
+   fun de => ⟨safe_bytes r de, safe_dataFsck r de⟩⟩
+
+/-- every directory the code hands out satisfies the invariant `DirOK` the unchecked accesses rely on -/
+theorem C12_dir_invariant (r : Resources) (hb : Aligned r) :
+    (∀ off d, dirTryFrom r off = .ok d → DirOK r d ∧ d.off = off) ∧
+    (∀ (e : DirEntry) d, e.entry r = .ok (.dir d) → DirOK r d) :=
+  ⟨fun off d h => ⟨(dirTryFrom_ok hb h).1, by rw [(dirTryFrom_ok hb h).2]⟩,
+   fun _ _ h => (entry_dir_ok hb h).1⟩
+
+/-- C02 for the find API (`find.rs`), for arbitrary section bytes and arbitrary paths / names: every
+lookup returns a Rust `Result` (possibly `Err(FindError)`), never panics, never reads outside. -/
+theorem C12_safe_find (r : Resources) (hb : Aligned r) :
+    (∀ p, IsVal (find r p) ∧ IsVal (findData r p) ∧ IsVal (findDir r p)) ∧
+    (∀ d, DirOK r d → ∀ q, IsVal (d.get r q) ∧ IsVal (d.getData r q) ∧ IsVal (d.getDir r q)) ∧
+    (∀ d, DirOK r d → IsVal (d.first r) ∧ IsVal (d.firstData r) ∧ IsVal (d.firstDir r)) ∧
+    (∀ d, DirOK r d → ∀ p, IsVal (d.find r p)) ∧
+    (∀ t n, IsVal (findResource r t n) ∧ IsVal (findResources r t n)) ∧
+    (∀ t n l, IsVal (findResourceEx r t n l)) ∧
+    IsVal (manifest r) ∧ IsVal (versionBytes r) ∧ IsVal (versionInfo r) :=
+  ⟨fun p => ⟨isVal_find hb p, isVal_findData hb p, isVal_findDir hb p⟩,
+   fun _ hd q => ⟨isVal_get hb hd q, isVal_getData hb hd q, (isVal_getDir hb hd q).1⟩,
+   fun _ hd => ⟨(isVal_first hb hd).1, isVal_firstData hb hd, (isVal_firstDir hb hd).1⟩,
+   fun _ hd p => isVal_dirFind hb hd p,
+   fun t n => ⟨isVal_findResource hb t n, (isVal_findResources hb t n).1⟩,
+   fun t n l => isVal_findResourceEx hb t n l,
+   isVal_manifest hb, isVal_versionBytes hb, isVal_versionInfo hb⟩
+
+/-- C02 for `group.rs` and `icons()` / `cursors()`: the iterators always yield a list of results;
+every group they hold satisfies the invariant of `GroupResource::new`; on such a group `entries`,
+`ty`, `image` and `write` (into a vector) cannot fail other than by a `FindError` value. -/
+theorem C12_safe_groups (r : Resources) (hb : Aligned r) :
+    (∀ ty, ∃ items, groups r ty = .ok items ∧ ∀ it ∈ items, ItemOK r it) ∧
+    (∀ bytes : Ref, bytes.off + bytes.len ≤ r.sec.size → Safe (groupNew r bytes) ∧
+      ∀ g, groupNew r bytes = .ok g → GroupOK r g) ∧
+    (∀ g, GroupOK r g →
+      g.entries r = .ok (groupEntriesFrom r (g.off + 6) g.count) ∧
+      (∃ t, g.typeId = .ok t ∧ (t = RT_ICON ∨ t = RT_CURSOR)) ∧
+      (∀ id, IsVal (g.image r id)) ∧ ∃ out, g.write r = .ok out) :=
+  ⟨fun ty => groups_ok hb ty,
+   fun _ hbnd => ⟨safe_groupNew hbnd, fun _ h => (groupNew_ok hbnd h).1⟩,
+   fun _ hg => ⟨groupEntries_eq hg, typeId_ok hg, fun id => isVal_image hb hg id, write_ok hb hg⟩⟩
+
+/-- Why the alignment hypothesis: `Resources::new` is public and takes any slice, but the accessors
+check the alignment of *offsets* only.  A zeroed 16-byte section at an odd address is dereferenced
+as `&IMAGE_RESOURCE_DIRECTORY` — undefined behaviour (not reachable through `Pe::resources`). -/
+theorem C12_unaligned_section_is_ub_partial :
+    (root ⟨Array.replicate 16 0, 0, 1⟩).isUb = true ∧ Safe (root ⟨Array.replicate 16 0, 0, 4⟩) := by
+  decide
+
+/-- C01: every reference handed back — directory headers, entry records, name words, data entry
+headers and data bytes — lies inside the section and is aligned for its type. -/
+theorem C12_refs_ok (r : Resources) (hb : Aligned r) :
+    (∀ d, DirOK r d → RefOK r.img d.ref ∧ ∀ e ∈ entriesFrom r (d.off + 16) (d.named + d.ids), RefOK r.img e.ref) ∧
+    (∀ (e : DirEntry) w, e.nameRef r = .ok (some w) → RefOK r.img w ∧ w.align = 2) ∧
+    (∀ off de, dataTryFrom r off = .ok de → RefOK r.img de.ref) ∧
+    (∀ (de : DataEntry) ref, de.bytes r = .ok ref → RefOK r.img ref) := by
+  refine ⟨fun d hd => ⟨dirRef_ok hb hd, fun e he => entryRef_ok hb hd he⟩, fun e w h => ⟨nameRef_ok hb h, ?_⟩,
+    fun _ _ h => dataRef_ok hb h, fun _ _ h => bytesRef_ok h⟩
+  rw [nameRef_eq hb] at h
+  repeat (first | (split at h) | cases h | rfl)
+
+/-- C03, printer: the text of `Display for Resources` is `"Resources/\n"` followed by one record per
+entry drawn, and at most `(len / 16) * (len / 8)` entries are drawn — whatever the bytes are (in
+particular for directories that contain themselves or share children). -/
+theorem C12_display_work (r : Resources) (hb : Aligned r) (text : List Nat) (h : display r = .ok text) :
+    (∃ e, root r = .err e ∧ text = asc "Resources/\n" ++ errText e) ∨
+    ∃ records : List (List Nat), text = asc "Resources/\n" ++ records.flatten ∧
+      records.length ≤ (r.sec.size / 16) * (r.sec.size / 8) :=
+  display_work hb h
+
+/-- C03, fsck: the instrumented twin `fsckDirW` returns exactly the model's result, never has more
+budget left than it was given, and examines at most `len / 8` directory entries per unit of budget
+it consumed; with the initial budget `len / 16` that is at most `(len / 16) * (len / 8)` entries. -/
+theorem C12_fsck_work (r : Resources) (hb : Aligned r) (d : Dir) (hd : DirOK r d) :
+    (fsckDirW r FSCK_MAX_DEPTH d (fsckBudget r)).1 = fsckDir r FSCK_MAX_DEPTH d (fsckBudget r) ∧
+    (fsckDirW r FSCK_MAX_DEPTH d (fsckBudget r)).2.2 ≤ (r.sec.size / 16) * (r.sec.size / 8) := by
+  refine ⟨(fsckDirW_fst r _ d _).1, ?_⟩
+  obtain ⟨_, h2⟩ := fsckDirW_work hb FSCK_MAX_DEPTH d (fsckBudget r) hd
+  exact Nat.le_trans h2 (Nat.mul_le_mul_right _ (Nat.sub_le _ _))
+
+/-! ## 2. One level of traversal -/
+
+/-- `entries()` is the stored array: `NumberOfNamedEntries + NumberOfIdEntries` records of 8 bytes
+right after the 16-byte header, in stored order, and it is `named_entries()` followed by `id_entries()`. -/
+theorem C12_entries (r : Resources) (hb : Aligned r) (d : Dir) (hd : DirOK r d) :
+    ∃ all named ids, d.entries r = .ok all ∧ d.namedEntries r = .ok named ∧ d.idEntries r = .ok ids ∧
+      all = named ++ ids ∧ named.length = d.named ∧ ids.length = d.ids ∧
+      d.named = le16 r.sec (d.off + 12) ∧ d.ids = le16 r.sec (d.off + 14) ∧
+      ∀ i, i < d.named + d.ids →
+        all[i]? = some ⟨d.off + 16 + 8 * i, le32 r.sec (d.off + 16 + 8 * i), le32 r.sec (d.off + 16 + 8 * i + 4)⟩ :=
+  ⟨_, _, _, entries_eq hb hd, namedEntries_eq hb hd, idEntries_eq hb hd, entriesFrom_append r _ _ _,
+   entriesFrom_length r _ _, entriesFrom_length r _ _, hd.2.2.1, hd.2.2.2,
+   fun i hi => entriesFrom_get r _ _ i hi⟩
+
+/-- `name()`: an id when the high bit of the Name field is clear; otherwise the length-prefixed
+UTF-16 string at the offset in the low 31 bits, `Misaligned` for an odd offset and `Bounds` when the
+length word or the words do not fit. -/
+theorem C12_name (r : Resources) (hb : Aligned r) (e : DirEntry) :
+    e.getName r =
+      if e.name < 0x80000000 then .ok (.id e.name)
+      else if (e.name % 0x80000000) % 2 ≠ 0 then .err .misaligned
+      else if e.name % 0x80000000 + 2 > r.sec.size then .err .bounds
+      else if e.name % 0x80000000 + 2 + le16 r.sec (e.name % 0x80000000) * 2 > r.sec.size then .err .bounds
+      else .ok (.wide (wordsAt r.sec (e.name % 0x80000000 + 2) (le16 r.sec (e.name % 0x80000000)))) :=
+  getName_eq hb e
+
+/-- `entry()`: the high bit of the Offset field selects a sub-directory (validated at the offset in
+the low 31 bits) or a data entry (at the offset itself); `is_dir()` is that bit. -/
+theorem C12_entry_target (r : Resources) (hb : Aligned r) (e : DirEntry) :
+    (e.isDir = true ↔ e.offset ≥ 0x80000000) ∧
+    (∀ d, e.entry r = .ok (.dir d) → e.offset ≥ 0x80000000 ∧ d.off = e.offset % 0x80000000 ∧
+      dirTryFrom r (e.offset % 0x80000000) = .ok d) ∧
+    (∀ de, e.entry r = .ok (.data de) → e.offset < 0x80000000 ∧ de.off = e.offset ∧
+      de = ⟨e.offset, le32 r.sec e.offset, le32 r.sec (e.offset + 4), le32 r.sec (e.offset + 8)⟩) := by
+  refine ⟨by simp [DirEntry.isDir], fun d h => ?_, fun de h => ?_⟩
+  · obtain ⟨_, h2, h3⟩ := entry_dir_ok hb h
+    refine ⟨h2, h3, ?_⟩
+    rw [entry_eq, if_pos h2] at h
+    cases hd : dirTryFrom r (e.offset % 0x80000000) with
+    | ok d' => rw [hd] at h; cases h; rfl
+    | _ => rw [hd] at h; cases h
+  · obtain ⟨h1, h2⟩ := entry_data_ok h
+    rw [dataTryFrom_eq hb] at h2
+    by_cases c1 : e.offset % 4 ≠ 0
+    · rw [if_pos c1] at h2; cases h2
+    · rw [if_neg c1] at h2
+      by_cases c2 : e.offset + 16 > r.sec.size
+      · rw [if_pos c2] at h2; cases h2
+      · rw [if_neg c2] at h2; cases h2; exact ⟨h1, rfl, rfl⟩
+
+/-- `bytes()`: exactly `Size` bytes at `OffsetToData - directory RVA`; `Overflow` when the
+subtraction or the addition leaves `u32`, `Bounds` when the range is not inside the section.
+`size()` and `code_page()` are the stored fields. -/
+theorem C12_data_bytes (r : Resources) (de : DataEntry) :
+    de.bytes r =
+      (if de.offsetToData < r.dirVA then .err .overflow
+       else if de.offsetToData - r.dirVA + de.size ≥ 4294967296 then .err .overflow
+       else if de.offsetToData - r.dirVA + de.size > r.sec.size then .err .bounds
+       else .ok ⟨de.offsetToData - r.dirVA, de.size, 1⟩) ∧
+    de.sizeOf = de.size ∧ de.codePageOf = de.codePage :=
+  ⟨rfl, rfl, rfl⟩
+
+/-! ## 3. The whole tree -/
+
+/-- Traversing a section that represents the tree `t` (layout relation `IsTree`) with `entries`,
+`name`, `entry`, `bytes` and `code_page` reports exactly `t`: at every level the entries in stored
+order with their names, sub-directories and data entries, data bytes and code pages. -/
+theorem C12_traversal_reports_tree (r : Resources) (hb : Aligned r) (t : Node) (h : IsTree r t) (k : Nat)
+    (hk : t.depth ≤ k) : readTree r k = .ok t :=
+  readTree_of_isTree hb h hk
+
+/-- The reference writer produces a section that represents the tree (so the hypothesis `IsTree` of
+the theorems of this file is satisfiable for every encodable tree, of any size and depth). -/
+theorem C12_writer_represents (dirVA : Nat) (t : Node) (h : Encodable dirVA t) :
+    IsTree (resourcesOf dirVA t) t ∧ Aligned (resourcesOf dirVA t) ∧ (resourcesOf dirVA t).sec.size = t.size :=
+  ⟨isTree_resourcesOf h, aligned_resourcesOf dirVA t, resourcesOf_size dirVA t⟩
+
+/-- Round trip: writing any encodable tree and traversing the result gives the tree back. -/
+theorem C12_round_trip (dirVA : Nat) (t : Node) (h : Encodable dirVA t) :
+    readTree (resourcesOf dirVA t) t.depth = .ok t :=
+  readTree_of_isTree (aligned_resourcesOf dirVA t) (isTree_resourcesOf h) (Nat.le_refl _)
+
+/-! ## 4. Name matching -/
+
+/-- The `RSRC_TYPES` table transcribed from the source is `#` + the winuser.h `RT_*` name at
+exactly the predefined ids, and nothing anywhere else. -/
+theorem C12_rsrc_types_table :
+    rsrcTypes.length = 25 ∧
+    (∀ n, n < 25 → typeName rsrcTypes n = (msResourceTypes.find? (·.1 = n)).map fun p => 35 :: asc p.2) ∧
+    msResourceTypes.map (·.1) = [1, 2, 3, 4, 5, 6, 7, 8, 9, 10, 11, 12, 14, 16, 17, 19, 20, 21, 22, 23, 24] := by
+  decide
+
+theorem C12_rsrc_types_all (n : Nat) : typeName rsrcTypes n = typeString n := typeName_eq n
+
+/-- `str::parse::<u32>` after a first digit `1`‥`9`: succeeds with `v` iff every byte is a decimal
+digit and the decimal value is `v < 2^32` (leading `+`, signs, blanks, overflow: rejected). -/
+theorem C12_parse_u32 (d : Nat) (ds : List Nat) (v : Nat) (hd : 49 ≤ d ∧ d ≤ 57) :
+    parseU32 (d :: ds) = some v ↔ (∀ c ∈ d :: ds, 48 ≤ c ∧ c ≤ 57) ∧ v = decVal (d :: ds) ∧ v < 4294967296 := by
+  rw [parseU32_digit d ds hd]
+  exact parseDigits_eq_some (d :: ds) 0 v (by omega)
+
+/-- the near misses: `#0`, `#01`, `#+1`, `#1 `, `#4294967297` do not name ids 0 / 1; `#ICON` and
+`#3` both name id 3, `#icon` does not -/
+theorem C12_near_miss_names :
+    (Name.id 0).eqString (asc "#0") = false ∧ (Name.id 1).eqString (asc "#01") = false ∧
+    (Name.id 1).eqString (asc "#+1") = false ∧ (Name.id 1).eqString (asc "#1 ") = false ∧
+    (Name.id 1).eqString (asc "#4294967297") = false ∧ (Name.id 1).eqString (asc "#1") = true ∧
+    (Name.id 3).eqString (asc "#ICON") = true ∧ (Name.id 3).eqString (asc "#3") = true ∧
+    (Name.id 3).eqString (asc "#icon") = false ∧ (Name.id 4294967295).eqString (asc "#4294967295") = true := by
+  decide
+
+/-- `decode_utf16(words).eq(chars.map(Ok))` holds exactly when the words are the UTF-16 encoding of
+the characters (surrogate pairs for non-BMP characters; an unpaired surrogate matches nothing). -/
+theorem C12_utf16_exact (ws cs : List Nat) (hw : ∀ w ∈ ws, w < 65536) (hc : ∀ c ∈ cs, IsScalar c) :
+    decodeUtf16 ws = cs.map .ok ↔ ws = utf16Encode cs :=
+  decode_eq_iff ws cs hw hc
+
+/-- The comparison every lookup makes (`de.name() == Ok(name)`, i.e. `Name::eq`) decides exactly the
+documented rule `nameMatch`: ids and UTF-16 names compare exactly and never with each other; a
+string matches an id as `#<decimal id>` (first digit not `0`) or as the predefined `#TYPE` name of
+that id, and matches a UTF-16 name iff that is the string's UTF-16 encoding. -/
+theorem C12_name_match (stored : RName) (q : Name) (h : stored.InRange) :
+    stored.toName.eq q = nameMatch stored q :=
+  eq_eq_nameMatch stored q h
+
+/-! ## 5. Lookup -/
+
+/-- For arbitrary section bytes: `entries().find(|de| de.name() == Ok(q))` returns the FIRST entry in
+stored order whose name can be read and matches, and `None` iff there is none. -/
+theorem C12_first_match (r : Resources) (hb : Aligned r) (q : Name) (es : List DirEntry) :
+    (∀ e, firstMatch r q es = .ok (some e) →
+      ∃ pre post, es = pre ++ e :: post ∧ entryMatches r q e ∧ ∀ x ∈ pre, ¬ entryMatches r q x) ∧
+    (firstMatch r q es = .ok none ↔ ∀ x ∈ es, ¬ entryMatches r q x) :=
+  ⟨fun e h => firstMatch_some hb q es e h, firstMatch_none hb q es⟩
+
+/-- `get` / `get_data` / `get_dir` / `first*` on a directory that represents `t`: the answer of the
+specification on `t` (first matching entry under `nameMatch`, `NotFound`, `UnDirectory`,
+`UnDataEntry`), as an entry that represents the node found. -/
+theorem C12_get_on_tree (r : Resources) (hb : Aligned r) (d : Dir) (t : Node) (h : RepDir r d t) (q : Name) :
+    FRelG (Rep r) (d.get r q) (t.get q) ∧ FRelG (RepData r) (d.getData r q) (t.getData q) ∧
+    FRelG (RepDir r) (d.getDir r q) (t.getDir q) ∧ FRelG (Rep r) (d.first r) t.first ∧
+    FRelG (RepData r) (d.firstData r) t.firstData ∧ FRelG (RepDir r) (d.firstDir r) t.firstDir :=
+  ⟨get_rep hb h q, getData_rep hb h q, getDir_rep hb h q, first_rep hb h, firstData_rep hb h, firstDir_rep hb h⟩
+
+/-- `find(path)` on a section that represents `t`: the node the path names in `t` (component by
+component, first match per level), or the documented error. -/
+theorem C12_find_on_tree (r : Resources) (hb : Aligned r) (t : Node) (h : IsTree r t) (p : List Nat) :
+    FRelG (Rep r) (find r p) (t.find p) :=
+  find_rep hb h p
+
+/-- `find_resource`, `find_resource_ex`, `manifest` and the lookup behind `version_info` on a section
+that represents `t`: the bytes of the data entry the specification finds in `t`. -/
+theorem C12_helpers_on_tree (r : Resources) (hb : Aligned r) (t : Node) (h : IsTree r t) :
+    (∀ ty name, FRelG (RepBytes r) (findResource r ty name) (t.findResource ty name)) ∧
+    (∀ ty name lang, FRelG (RepBytes r) (findResourceEx r ty name lang) (t.findResourceEx ty name lang)) ∧
+    FRelG (RepBytes r) (manifest r) t.manifest ∧
+    FRelG (RepBytes r) (versionBytes r) t.version :=
+  ⟨fun ty name => findResource_rep hb h ty name, fun ty name lang => findResourceEx_rep hb h ty name lang,
+   manifest_rep hb h, findResource_rep hb h _ _⟩
+
+/-- the helpers are the documented compositions of the basic lookups (by definition of the model,
+which mirrors find.rs line by line) -/
+theorem C12_helpers_composed (r : Resources) (ty name lang : Name) (p : List Nat) :
+    findResources r ty name = liftE (root r) (fun d => bindF (d.getDir r ty) fun t => t.getDir r name) ∧
+    findResource r ty name = bindF (findResources r ty name) (fun n => bindF (n.firstData r) fun de => liftE (de.bytes r) okF) ∧
+    findResourceEx r ty name lang =
+      bindF (findResources r ty name) (fun n => bindF (n.getData r lang) fun de => liftE (de.bytes r) okF) ∧
+    versionBytes r = findResource r (.id 16) (.id 1) ∧
+    findData r p = bindF (find r p) asData ∧ findDir r p = bindF (find r p) asDir ∧
+    icons r = groups r 14 ∧ cursors r = groups r 12 :=
+  ⟨rfl, rfl, rfl, rfl, rfl, rfl, rfl, rfl⟩
+
+/-! ## 6. The consistency check -/
+
+/-- **What `fsck` decides, exactly.**  It succeeds iff the section represents a tree — every
+reference reachable from the root is 4-aligned (2 for names) and in bounds, every data range lies
+in the section — whose directories nest at most 32 deep and number, counted with multiplicity along
+every path, at most `len / 16` (the visit budget). -/
+theorem C12_fsck_exact (r : Resources) (hb : Aligned r) :
+    fsck r = .ok () ↔ ∃ t : Node, IsTree r t ∧ t.depth ≤ 32 ∧ t.dirCount ≤ r.sec.size / 16 :=
+  fsck_ok_iff hb
+
+/-- Soundness in terms of the stored graph: after a successful `fsck` every directory reachable from
+the root by sub-directory references is reached in fewer than 32 steps, represents a tree (so every
+reference below it is in bounds), and no directory is reachable from itself. -/
+theorem C12_fsck_sound (r : Resources) (hb : Aligned r) (h : fsck r = .ok ()) (n b : Nat) (hr : Reach r 0 n b) :
+    n < 32 ∧ (∃ m es, IsNode r b (.dir m es)) ∧ ∀ k, ¬ Reach r b (k + 1) b := by
+  obtain ⟨t, ⟨hdir, hnode⟩, hdep, _⟩ := (fsck_ok_iff hb).1 h
+  cases t with
+  | data c cp => cases hdir
+  | dir m es =>
+    obtain ⟨m', es', h1, h2⟩ := reach_isNode hr hnode
+    simp only [Node.depth] at hdep
+    exact ⟨by omega, ⟨m', es', h1⟩, fun k hk => no_self_reach hk es'.depth m' es' (Nat.le_refl _) h1⟩
+
+/-- Completeness for written trees: `fsck` accepts the section the reference writer produces for any
+encodable tree with at most 32 levels of directories (the budget never binds: every directory
+occupies at least 16 bytes). -/
+theorem C12_fsck_complete (dirVA : Nat) (t : Node) (h : Encodable dirVA t) (hd : t.depth ≤ 32) :
+    fsck (resourcesOf dirVA t) = .ok () := by
+  rw [fsck_ok_iff (aligned_resourcesOf dirVA t)]
+  refine ⟨t, isTree_resourcesOf h, hd, ?_⟩
+  rw [resourcesOf_size]
+  have := dirCount_le_size t
+  omega
+
+/-- A directory that contains itself is rejected with `Insanity` (depth limit), a shared
+sub-directory is accepted as long as the unfolded tree fits the budget. -/
+theorem C12_fsck_examples :
+    -- root with one entry pointing back at the root
+    fsck ⟨#[0,0,0,0, 0,0,0,0, 0,0,0,0, 0,0,1,0,  1,0,0,0, 0,0,0,0x80], 0, 0⟩ = .err .insanity ∧
+    -- root with two entries sharing one empty sub-directory at offset 32
+    fsck ⟨#[0,0,0,0, 0,0,0,0, 0,0,0,0, 0,0,2,0,  1,0,0,0, 32,0,0,0x80,  2,0,0,0, 32,0,0,0x80,
+            0,0,0,0, 0,0,0,0, 0,0,0,0, 0,0,0,0], 0, 0⟩ = .ok () := by
+  decide +kernel
+
+/-! ## 7. Group icons / cursors -/
+
+/-- `write` outputs the 6 header bytes, then one 16-byte record per entry, then for every entry (in
+entry order) the image bytes the lookup `RT_ICON|RT_CURSOR / nId / first language` yields (nothing
+when that lookup fails). -/
+theorem C12_write_shape (r : Resources) (hb : Aligned r) (g : Group) (hg : GroupOK r g) :
+    g.write r = .ok (bytesAt r.sec g.off 6 ++
+      writeEntries r (groupEntriesFrom r (g.off + 6) g.count) (6 + (groupEntriesFrom r (g.off + 6) g.count).length * 16) ++
+      ((groupEntriesFrom r (g.off + 6) g.count).map (imageOf r g)).flatten) ∧
+    (groupEntriesFrom r (g.off + 6) g.count).length = g.count ∧
+    ∀ es off, (writeEntries r es off).length = 16 * es.length :=
+  ⟨write_eq hb hg, groupEntriesFrom_length r _ _, fun es off => writeEntries_length r es off⟩
+
+/-- the record written for an entry is the first 12 bytes of its GRPICONDIRENTRY followed by
+`dwImageOffset = (start + Σ dwBytesInRes of the entries before it) mod 2^32`; `write` starts at
+`6 + 16 n` -/
+theorem C12_write_offsets (r : Resources) (pre : List GroupEntry) (e : GroupEntry) (post : List GroupEntry)
+    (start : Nat) (h : start < 4294967296) :
+    writeEntries r (pre ++ e :: post) start =
+      writeEntries r pre start ++
+      (bytesAt r.sec e.off 12 ++ le32Bytes ((start + (pre.map (·.bytesInRes)).sum) % 4294967296)) ++
+      writeEntries r post ((start + (pre.map (·.bytesInRes)).sum + e.bytesInRes) % 4294967296) :=
+  writeEntries_split r pre e post start h
 
 end Pelite.Resources
